@@ -140,7 +140,7 @@ def gen_case(rng, n_ops, faults=False, crashes=False):
         elif k < 96:
             o = f"deltopic {s} {ta if not p2p else t}" + (" hard=1" if rng.chance(1, 2) else "")
         elif k < 97:
-            out.append(rng.choice(["fg S5", "fg S5", f"drop {s}", "drop S5"]))
+            out.append(rng.choice(["fg S5", "fg S5", f"drop {s}", "drop S5", f"userstate {su} susp", f"userstate {su} ok", f"userstate {su} susp"]))
             continue
         else:
             out.append(f"unload {key if p2p else t}")
@@ -186,7 +186,9 @@ def _maybe_restart(rng, out, p=6):
 def scenario(rng, idx=None):
     """one short history aimed at a clause of the properties, with its parameters drawn at random; restarts are sprinkled in so
     that the same clause is also exercised on a reloaded topic"""
-    k = rng.below(16) if idx is None else idx % 16          # the stream goes through the kinds in turn
+    k = rng.below(17) if idx is None else idx % 17          # the stream goes through the kinds in turn
+    if k == 16:
+        return scenario_suspended(rng)
     if k >= 14:
         return scenario_chan(rng)
     if k >= 11:
@@ -320,6 +322,31 @@ def scenario(rng, idx=None):
         out.append("restart")
         out.append(f"sub {ms} {T}")
         out.append(f"get {ms} {T} sub")
+    return out
+
+
+def scenario_suspended(rng):
+    """a suspended account: the loaded group topics it owns and its loaded p2p topics are read-only - no publishing, no typing
+    notes, no invitations - until the account is active again; reading and read receipts go on"""
+    out = _preamble(rng)
+    out.append("newgrp S1" + rng.choice(["", " auth=JRWPS anon=N"]))
+    out.append("setsub S1 T1 user=U2 mode=JRWPS")
+    out.append("sub S2 T1")
+    out.append("sub S2 U1")
+    out.append("sub S1 U2")
+    out.append("pub S2 T1 C1")
+    out.append("pub S1 U2 C2")
+    out.append(f"userstate {rng.choice(['U1', 'U1', 'U2'])} susp")
+    steps = ["pub S2 T1 C3", "pub S1 T1 C4", "pub S2 U1 C5", "pub S1 U2 C6 noecho=1", "note S2 T1 kp 0", "note S2 T1 read 1", "note S2 U1 recv 1",
+             "setsub S1 T1 user=U3", "setsub S1 T1 user=U2 mode=JRW", "get S2 T1 data", "get S2 U1 desc", "leave S2 T1", "sub S2 T1",
+             "userstate U1 ok", "userstate U1 susp", "userstate U2 susp", "unload T1", "delmsg S2 T1 1:2", "sub S3 T1"]
+    for _ in range(5 + rng.below(7)):
+        out.append(rng.choice(steps))
+        _maybe_restart(rng, out, 12)
+    out.append("userstate U1 ok")
+    out.append("userstate U2 ok")
+    out.append("pub S2 T1 C7")
+    out.append("get S1 T1 data")
     return out
 
 
